@@ -907,9 +907,24 @@ func (c *Compiler) codeToOpcode(ctx *compileContext, typ *runtime.Type, code Cod
 
 func (c *Compiler) linkRecursiveCode(ctx *compileContext) {
 	recursiveCodes := map[uintptr]*CompiledCode{}
-	for _, recursive := range *ctx.recursiveCodes {
+	// (by index: compiling a missing body below may add recursive references)
+	for i := 0; i < len(*ctx.recursiveCodes); i++ {
+		recursive := (*ctx.recursiveCodes)[i]
 		typeptr := uintptr(unsafe.Pointer(recursive.Type))
 		codes := ctx.structTypeToCodes[typeptr]
+		if len(codes) == 0 {
+			// the struct type has only been compiled as an embedded member, its members
+			// flattened into the embedding struct: a recursive reference needs the body
+			// of the struct itself
+			structCode, err := c.structCode(recursive.Type, false)
+			if err != nil {
+				continue
+			}
+			structCode.isRecursive = false
+			codes = structCode.ToOpcode(ctx)
+			// a body of its own ends where it ends (copyOpcode follows Next up to an end op)
+			codes.Last().Next = newEndOp(ctx, recursive.Type)
+		}
 		if recursiveCode, ok := recursiveCodes[typeptr]; ok {
 			*recursive.Jmp = *recursiveCode
 			continue
